@@ -38,11 +38,11 @@ def WF (g : Code.CircuitBreaker) : Prop :=
   (g.state = 0 ∨ g.state = 1 ∨ g.state = 2) ∧ 0 ≤ g.interval ∧ 0 ≤ g.timeout ∧
   0 ≤ g.lastFailureTime ∧ 0 ≤ g.nextAttempt
 
-def admitOf (r : Nat × Option String) : Option CB.Admit :=
+def admitOf (r : Nat × Option (String × List String)) : Option CB.Admit :=
   match r.2 with
   | none => some (.admitted r.1)
-  | some "ErrCircuitBreakerOpen" => some .rejectedOpen
-  | some "ErrTooManyRequests" => some .tooMany
+  | some ("ErrCircuitBreakerOpen", _) => some .rejectedOpen
+  | some ("ErrTooManyRequests", _) => some .tooMany
   | some _ => none
 
 theorem setState_spec (g : Code.CircuitBreaker) (s : Int) :
